@@ -88,7 +88,7 @@ class Base:
 
 
 class Sync(Base):
-    EVENTS = [("start", 0.1), ("start", 0.2), ("start", 0.1004), ("start", None), ("stop",)]
+    EVENTS = [("start", 0.1), ("start", 0.2), ("start", 0.1004), ("start", None), ("start", 0), ("stop",)]
 
     def __init__(self):
         super().__init__()
@@ -102,6 +102,14 @@ class Sync(Base):
             except ValueError:
                 if p:
                     return [("C17:sync:start-refused", "started", "ValueError")]
+                # a refused start either leaves the producer as it was (same task, same period attribute) or stopped
+                if not self.live():
+                    self.running = False
+                    if self.net.sync.period in (self.period, 0, None):
+                        self.period = self.net.sync.period or None      # a stopped producer may keep or forget its period
+                elif self.net.sync.period != self.period:
+                    return [("C17:sync:refused-start-changed-the-period-of-a-running-producer",
+                             f"period attribute {self.period} (the running task's) or no task", f"period attribute {self.net.sync.period}, task still running")]
                 return []
             if not p:
                 return [("C17:sync:start-without-period", "ValueError", "started")]
@@ -119,7 +127,8 @@ class Sync(Base):
 
 
 class Pdo(Base):
-    EVENTS = [("start", 0.1), ("start", 0.5), ("start", 0.1004), ("start", None), ("stop",), ("set", 0), ("set", 7), ("update",)]
+    EVENTS = [("start", 0.1), ("start", 0.5), ("start", 0.1004), ("start", None), ("stop",), ("set", 0), ("set", 7), ("update",),
+              ("remap", 1), ("remap", 2)]
 
     def __init__(self):
         import canopen
@@ -128,9 +137,17 @@ class Pdo(Base):
         self.map = self.node.rpdo[1]
         self.map.cob_id = 0x205
         self.map.add_variable(0x2000)
-        self.running, self.period, self.value = False, None, 0
+        self.running, self.period, self.value, self.size = False, None, 0, 1
 
     def do(self, e):
+        if e[0] == "remap":
+            # the mapping (and with it the size of the frame) changes while the transmission may be running
+            self.map.clear()
+            for _ in range(e[1]):
+                self.map.add_variable(0x2000)
+            self.map.update()
+            self.value, self.size = 0, e[1]
+            return []
         if e[0] == "start":
             p = e[1] if e[1] is not None else self.period
             try:
@@ -147,14 +164,15 @@ class Pdo(Base):
             self.map.stop()
             self.running = False
         elif e[0] == "set":
-            self.map[0].raw = e[1]
+            for k in range(self.size):
+                self.map[k].raw = e[1]
             self.value = e[1]
         else:
             self.map.update()
         return []
 
     def invariant(self):
-        return self.check(0x205, [(0x205, bytes([self.value]), self.period, False)] if self.running else [], "pdo")
+        return self.check(0x205, [(0x205, bytes([self.value] * self.size), self.period, False)] if self.running else [], "pdo")
 
     def canon(self):
         return (tuple(self.live()), self.running, self.period, self.value, kernel.scalar_state(self.map, exclude=("timestamp",)),
